@@ -18,19 +18,34 @@ thread_local! {
     static REG: RefCell<Vec<(String, u8)>> = const { RefCell::new(Vec::new()) };
 }
 
-pub struct Tok(usize);
+thread_local! {
+    /// generation of the registry (one per case) and number of values of an older generation dropped meanwhile
+    static GEN: std::cell::Cell<u64> = const { std::cell::Cell::new(0) };
+    static STALE: std::cell::Cell<u64> = const { std::cell::Cell::new(0) };
+}
+
+pub struct Tok(usize, u64);
 impl Tok {
     pub fn new(what: impl Into<String>) -> Tok {
         REG.with(|r| {
             let mut r = r.borrow_mut();
             r.push((what.into(), 0));
-            Tok(r.len() - 1)
+            Tok(r.len() - 1, GEN.with(|g| g.get()))
         })
     }
 }
 impl Drop for Tok {
     fn drop(&mut self) {
-        REG.with(|r| r.borrow_mut()[self.0].1 += 1);
+        if self.1 != GEN.with(|g| g.get()) {
+            // a value that outlived the simulation (and the case) it belonged to
+            STALE.with(|s| s.set(s.get() + 1));
+            return;
+        }
+        REG.with(|r| {
+            if let Some(e) = r.borrow_mut().get_mut(self.0) {
+                e.1 += 1;
+            }
+        });
     }
 }
 impl std::fmt::Debug for Tok {
@@ -88,6 +103,9 @@ pub struct ModSpec {
     pub panic_at: Option<u8>,
     /// keep the last received message in the module state
     pub keep_last: bool,
+    /// emit a self message and a gate message with tracked bodies from at_sim_end (never dispatched)
+    #[serde(default)]
+    pub emit_at_end: bool,
 }
 
 #[derive(Clone, Debug, Serialize, Deserialize)]
@@ -173,6 +191,13 @@ impl Module for M {
     fn reset(&mut self) {
         self.rx_keepalive.clear();
     }
+    fn at_sim_end(&mut self) -> Result<(), RuntimeError> {
+        if self.spec.emit_at_end {
+            schedule_in(Message::default().kind(1).with_content(TokBody(Tok::new("message body (scheduled in at_sim_end)"), 1)), Duration::from_millis(1));
+            send(Message::default().kind(2).with_content(TokBody(Tok::new("message body (sent in at_sim_end)"), 1)), "out");
+        }
+        Ok(())
+    }
 }
 
 fn check_registry(what: &str) -> Result<usize, Failure> {
@@ -200,6 +225,8 @@ fn check_registry(what: &str) -> Result<usize, Failure> {
 pub fn run_case(case: &Case) -> Result<(bool, Vec<&'static str>), Failure> {
     c13::ensure_golden()?;
     REG.with(|r| r.borrow_mut().clear());
+    GEN.with(|g| g.set(g.get() + 1));
+    STALE.with(|s| s.set(0));
     let n = case.mods.len().clamp(1, 8);
     let stack = case.stack % 3;
     let mut sim = Sim::new(()).with_stack(move || {
@@ -281,6 +308,12 @@ pub fn run_case(case: &Case) -> Result<(bool, Vec<&'static str>), Failure> {
     }
     let total = check_registry(&format!("after dropping everything ({:?})", case.stop))?;
     c13::check_followup("dropping a simulation")?;
+    let stale = STALE.with(|s| s.get());
+    vensure!(
+        stale == 0,
+        "value-outlived-its-simulation",
+        "{stale} tracked values of an earlier simulation were dropped only while this one ran"
+    );
     let backlog = case.mods.iter().take(n).any(|m| m.burst.len() >= 2) && n > 1;
     let blocked = case.mods.iter().take(n).any(|m| m.tasks.iter().any(|t| *t != TaskKind::Short));
     if backlog {
@@ -298,6 +331,9 @@ pub fn run_case(case: &Case) -> Result<(bool, Vec<&'static str>), Failure> {
     if case.ring {
         labels.push("ring");
     }
+    if case.mods.iter().take(n).any(|m| m.emit_at_end) && !matches!(case.stop, Stop::BuilderDropped | Stop::SimDropped | Stop::RuntimeDroppedBeforeStart) {
+        labels.push("events-emitted-during-tear-down");
+    }
     if total >= 20 {
         labels.push(">=20-tracked-values");
     }
@@ -312,7 +348,7 @@ impl Prop for C20 {
         "proptest: 1..8 modules (flat or parent/child) wired as a ring or chain over slow queueing channels, each pushing a burst of instance-tracked \
          message bodies at start (channel backlog), scheduling tracked self messages, spawning tasks blocked on a one-hour sleep / pending / recv / \
          short sleep that own tracked tokens (try_join or must-join), optionally shutting down (and restarting), panicking in the k-th handler \
-         call, keeping the last message in its state; 0..2 tracked processing elements per module; stopping point in {builder dropped, frozen Sim \
+         call, keeping the last message in its state, emitting messages from at_sim_end; 0..2 tracked processing elements per module; stopping point in {builder dropped, frozen Sim \
          dropped, Runtime dropped before start, max_itr(k), max_time(t), run to completion (possibly ending with PanicError / NotFinished)}. Oracle: \
          after dropping every value the API returned, every tracked instance was dropped exactly once (none alive, none twice), and a canonical \
          follow-up simulation reproduces the trace of a fresh process. Non-trivial iff events were pending at the stop AND a channel had a \
@@ -340,8 +376,9 @@ impl Prop for C20 {
             proptest::option::weighted(0.25, (0u16..30, proptest::option::weighted(0.6, 0u16..20))),
             proptest::option::weighted(0.1, 1u8..4),
             any::<bool>(),
+            proptest::bool::weighted(0.3),
         )
-            .prop_map(|(parent, burst, selfs, tasks, must_join, shutdown, panic_at, keep_last)| ModSpec {
+            .prop_map(|(parent, burst, selfs, tasks, must_join, shutdown, panic_at, keep_last, emit_at_end)| ModSpec {
                 parent,
                 burst,
                 selfs,
@@ -350,6 +387,7 @@ impl Prop for C20 {
                 shutdown,
                 panic_at,
                 keep_last,
+                emit_at_end,
             });
         let stop = prop_oneof![
             1 => Just(Stop::BuilderDropped),
